@@ -5,7 +5,8 @@ TRUSTED_BASE = [
     "Lean 4.33.0 kernel; axioms per theorem audited each run (whitelist: propext, Classical.choice, Quot.sound)",
     "hand-written Lean model (lean/TinyHttpModel) tied to /repo by the correspondence check of this run and by Extracted.lean regenerated from the source",
     "Lean compiler (the driver executes the same definitions the theorems are about)",
-    "tools/extract.py, tools/check.py, the Rust harness (generators, canonicalisation)",
+    "tools/extract.py, tools/mkcopy.py (std:: -> verif_rt::stdx:: copy of /repo/src), tools/check.py, the Rust harness (generators, canonicalisation, label mappers)",
+    "verif_rt (rt/): deterministic scheduler, virtual clock, Mutex/Condvar/mpsc/thread/in-memory sockets standing in for std in the controlled build",
     "std::io / std::sync / allocator / OS sockets / chunked_transfer / httpdate: modelled or observed, not verified",
 ]
 
@@ -28,7 +29,7 @@ EXPECTED_THEOREMS = {
     "C17": ["token_conservation", "tokens_preserve_requests", "try_recv_never_blocks", "recv_empty_only_by_token", "recv_timeout_bounds", "unblock_released_before_time_passes"],
     "C02": ["head_roundtrip", "method_table", "delivered_is_parsed", "head_roundtrip_any_segmentation"],
     "C03": ["limited_read_exact", "buffered_read_exact", "buffered_is_next_n", "upgrade_read_exact", "empty_read", "chunked_read_exact", "te_precedence", "declared_length", "no_framing_no_body"],
-    "C09": ["next_head_offset_limited", "next_head_offset_buffered", "next_head_offset_empty", "next_head_offset_chunked", "chunked_read_then_drain"],
+    "C09": ["next_head_offset_limited", "next_head_offset_buffered", "next_head_offset_empty", "next_head_offset_chunked", "chunked_read_then_drain", "pipeline_with_bodies"],
     "C10": ["request_line_needs_three_fields", "unknown_version_rejected", "version_table", "header_without_colon_rejected", "bad_request_line_outcome", "bad_header_outcome", "non_ascii_outcome", "non_ascii_line", "unsupported_expect_outcome", "expect_classification", "version_too_high_outcome", "too_high_versions", "earlier_responses_first", "pipeline_then_bad_request_line", "pipeline_then_eof"],
     "C16": ["ws_in_name_rejected", "ws_before_colon_rejected", "leading_ws_rejected", "bad_content_length_rejected", "strict_content_length_iff", "non_digit_rejected", "rejected_line_fails_head", "bad_content_length_outcome"],
     "C12": ["last_request_decision", "nothing_after_last", "stays_open", "close_after_client_eof", "trace_extends_state"],
@@ -181,7 +182,7 @@ PROPS = {
                 "srvq: the same programs against the whole Server of the generated copy (every producer a client connection on the in-memory network sending /r<v>, receivers calling "
                 "recv / try_recv / recv_timeout, unblock through Server::unblock; bursts of 5..8 connections, 5..12 s of virtual silence, then new connections), replayed on the same LTS "
                 "with anonymous pushes matched one-to-one against the delivered requests",
-        "required_tags": ["ptimer:0", "ptimer:200", "timedtook:1", "timeoutexp:1", "blocked:1", "left:1", "unblock:1", "srv:1", "burst:1", "whole:1"],
+        "required_tags": ["ptimer:0", "ptimer:200", "timedtook:1", "timeoutexp:1", "blocked:1", "left:1", "unblock:1", "srv:1", "burst:1", "whole:1", "spurious:1"],
         "partial": ["theorem: exactly-once/FIFO and no-lost-wake-up invariants of the queue LTS for all schedules",
                     "that a connection pushes its requests in parse order is the connection-loop model (C12.trace_extends_state); real-thread scheduling is sampled by C06/C11's pristine runs"],
         "assumptions": CTL_ASSUMPTIONS,
@@ -192,7 +193,7 @@ PROPS = {
         "rule": "same scenarios as C07 (unblock issued before, while and after receivers block); token accounting, try_pop non-blocking and the recv_timeout bounds are "
                 "evaluated on the implementation's history with virtual-clock durations compared exactly with the LTS; in zero-latency runs every unblock must release a "
                 "waiting receiver at the very instant it is issued (or leave nobody waiting); srvq: the same through Server::recv / try_recv / recv_timeout / unblock",
-        "required_tags": ["ptimer:0", "unblock:1", "timed:1", "timeoutexp:1", "srv:1"],
+        "required_tags": ["ptimer:0", "unblock:1", "timed:1", "timeoutexp:1", "srv:1", "spurious:1"],
         "partial": ["theorem: token conservation, try_recv non-blocking, recv_timeout bounds on the zero-latency LTS", "scheduling latency of real threads is outside the model"],
         "assumptions": CTL_ASSUMPTIONS,
     },
@@ -206,7 +207,7 @@ PROPS = {
         "rule": "TaskPool of the generated copy under the deterministic scheduler: bursts of 1..40 tasks (gaps 0 / 10 us / 1 ms / 6 s, before or after the initial workers "
                 "went idle), tasks block on a gate that stays shut (keep-alive connections that never end) or end at once; random schedules; every run replayed on the Lean "
                 "LTS (dispatch branch, which worker starts which task); predicate: every dispatched task started although no task ended",
-        "required_tags": ["tasks:5", "tasks:gt16", "tasks:le4", "newthread:1", "queued:1", "presettle:0", "presettle:1", "srv:burst:5", "srv:burst:16", "srv:burst:200", "srv:held", "srvpool:1", "fam:vanish", "fam:vanishdata"],
+        "required_tags": ["tasks:5", "tasks:gt16", "tasks:le4", "newthread:1", "queued:1", "presettle:0", "presettle:1", "srv:burst:5", "srv:burst:16", "srv:burst:200", "srv:held", "srvpool:1", "fam:vanish", "fam:vanishdata", "spuriouswake:1"],
         "partial": ["theorem: every queued task is claimed by a woken worker (for all burst patterns and schedules); conservation and at-most-once start",
                     "whole-server isolation over real sockets (N simultaneous keep-alive connections) is sampled by the pristine burst batch"],
         "assumptions": CTL_ASSUMPTIONS,
